@@ -238,7 +238,28 @@ def names_api(run, ctx):
     if fn is not None:
         c = H.canon(H.peel(fn["body"]))
         n += 1
-        if not H.pat_match("if (self.i < len(self.caps)) {let {r} = self.caps.get(self.i); self.i += 1; Some({r})} else {None}", c):
+        good = True
+        kinds_ = set()
+        for p in S.paths_of(fn["body"]):
+            v = S.ret_value(p)
+            if v is None:
+                continue
+            first_inc = next((i for i, ev in enumerate(p.events) if ev.kind == "assign" and ev.a == "self.i"), None)
+            pf = S.PathFacts(p.events, first_inc)
+            inside = pf.proves("Lt", "self.i", ({"len(self.caps)": 1}, 0))
+            outside = pf.proves("Ge", "self.i", ({"len(self.caps)": 1}, 0))
+            sm = S.Summary(p)
+            gets = [i for i, ev in enumerate(p.events) if ev.kind == "call" and ev.a == "self.caps.get(self.i)"]
+            incs = [i for i, ev in enumerate(p.events) if ev.kind == "assign" and ev.a == "self.i"]
+            if inside:
+                good = good and len(gets) == 1 and len(incs) == 1 and gets[0] < incs[0] and p.events[incs[0]].b == "+=" and p.events[incs[0]].c == "1" \
+                    and sm.val == "Some(self.caps.get(self.i))"
+            elif outside:
+                good = good and v == "None" and not gets and not incs
+            else:
+                good = False
+            kinds_.add(bool(inside))
+        if not good or kinds_ != {True, False}:
             run.violation(fam, label, "iter", H.where(fn), "Captures::iter must yield get(i) for i in 0..len(), found %s" % c)
     fn = S.get_fn(run, ctx, "Captures::iter", fam, label)
     if fn is not None:
